@@ -149,7 +149,7 @@ class InterpreterAnalyzer(ASTTemplate):
         invalid_scalar_outputs = []
         for child in node.children:
             if isinstance(child, (AST.Assignment, AST.PersistentAssignment)):
-                vtlengine.Exceptions.dataset_output = child.left.value  # type: ignore[attr-defined]
+                vtlengine.Exceptions.set_dataset_output(child.left.value)
             if not isinstance(
                 child,
                 (AST.HRuleset, AST.DPRuleset, AST.Operator, AST.ViralPropagationDef),
@@ -174,7 +174,7 @@ class InterpreterAnalyzer(ASTTemplate):
                     if vp_registry.rule_for(viral_comp) is None:
                         raise SemanticError("1-3-3-6", name=viral_comp.name)
 
-            vtlengine.Exceptions.dataset_output = None
+            vtlengine.Exceptions.set_dataset_output(None)
             self.datasets[result.name] = copy(result)
             results[result.name] = result
             if isinstance(result, Scalar):
